@@ -293,9 +293,11 @@ TGlue ==
   \* just begun and nothing has been heard in it, whatever was overheard while idle
   /\ Chk("C13") => ((ev.op = OpDiscover /\ full.es = 0 /\ ev.es # 0) => ev.r = << 0, 0 >>)
   \* the frame path feeds the opcode to the mapping engine; leaving an active state empties the table
-  /\ Chk("C14") => /\ ev.ms \in MappingStep(full.ms, ev.op, ev.now \div 1000 - lastIn[1], mT)
+  \* (the engine is stepped when the frame ARRIVES, before parseFrame may let time pass: elapsed time and the
+  \* engine's own time stamp are those of now0)
+  /\ Chk("C14") => /\ ev.ms \in MappingStep(full.ms, ev.op, ev.now0 \div 1000 - lastIn[1], mT)
                    /\ (full.ms # 0 /\ ev.ms = 0) => ev.live = << >>
-  /\ (Primary = "C14" => TLCSet(2, TLCGet(2) \cup {<< "glue", full.ms, ev.op, ev.now \div 1000 - lastIn[1] >>}))
+  /\ (Primary = "C14" => TLCSet(2, TLCGet(2) \cup {<< "glue", full.ms, ev.op, ev.now0 \div 1000 - lastIn[1] >>}))
   /\ Chk("C16") => TableConsistent(ev)
   /\ Chk("C12") => HellosOK(ev.hellos, 1, lastHello)
   /\ Chk("C12") => (Len(ev.hellos) > 0 => \E e \in MdlAfterGlue(ev) : ~e.complete)
@@ -308,7 +310,7 @@ TGlue ==
      IN /\ Chk("XGLUE") => ev.ctc = CtcAfterTick(charged.ctc, charged, ev.now \div 1000, FALSE)
         /\ full' = [FullOf(ev) EXCEPT !.cdl = CdlAfterTick(charged, ev.now \div 1000, FALSE)]
   /\ tbl' = LiveSet(ev)
-  /\ lastIn' = << ev.now \div 1000, ev.now \div 1000 >>
+  /\ lastIn' = << ev.now0 \div 1000, ev.now0 \div 1000 >>
   /\ l' = l + 1 /\ UNCHANGED << mT, sT, lastNi >>
 
 THeard ==
